@@ -213,7 +213,26 @@ def run_case(a):
                         viol.append(("C18 build-script-output-differs-from-cli mode=%s" % mode, "types.ts written by generate_at_build_time differs from the CLI's for the same table %s" % table, None))
             finally:
                 common.rmtree(broot)
-        return {"viol": viol, "ok": ok, "n": len(obs), "files": files, "let_sites": let_sites}
+        # (6) the library entry point (generate_from_config) takes the table in its configuration value: same bindings as the CLI's
+        if drv:
+            import json as _json, os as _os
+            lroot = common.scratch("c18l")
+            try:
+                common.write_tree(_os.path.join(lroot, "src"), files)
+                _json.dump({"project_path": _os.path.join(lroot, "src"), "output_path": _os.path.join(lroot, "out"), "validation_library": mode, "type_mappings": table,
+                            "verbose": len(types) % 2 == 0}, open(_os.path.join(lroot, "cfg.json"), "w"))
+                rl = common.run([drv, "gen", _os.path.join(lroot, "cfg.json")], cwd=lroot, timeout=120)
+                if not rl.timed_out and "RESULT ok" in rl.out:
+                    lo = common.read_outputs(_os.path.join(lroot, "out"))
+                    for f in sorted(oa.texts):
+                        if f.endswith(".ts") and (f not in lo or decl_multiset(common.strip_ts(lo[f])) != decl_multiset(common.strip_ts(oa.texts[f]))):
+                            viol.append(("C18 library-output-differs-from-cli file=%s mode=%s" % (f, mode), "generate_from_config with type_mappings %s: %s %s" % (
+                                table, f, "is missing" if f not in lo else "differs from what the CLI writes for the same table"), None))
+                elif not rl.timed_out:
+                    viol.append(("C18 library-run-fails mode=%s" % mode, "generate_from_config with type_mappings %s: %s" % (table, (rl.out + rl.err).strip()[-200:]), None))
+            finally:
+                common.rmtree(lroot)
+        return {"viol": viol, "ok": ok, "n": len(obs), "files": files, "let_sites": let_sites, "library": 1 if drv else 0}
     finally:
         ga.cleanup()
         gb.cleanup()
@@ -360,6 +379,7 @@ def run(tier):
             v.count("projects_that_also_define_the_mapped_names")
         v.count("mapped_positions_ok", r["ok"])
         v.count("annotated_let_event_sites_compared", r.get("let_sites", 0))
+        v.count("tables_also_run_through_the_library_entry_point", r.get("library", 0))
         tm = dict(ets)
         for (sig, what, i) in r["viol"]:
             wit = proj.witness_of(build([(i, tm[i])], defined) if i is not None else r["files"], mode, config={"type_mappings": table})
